@@ -26,6 +26,7 @@ import (
 	"verif/harness/c14"
 	"verif/harness/c15"
 	"verif/harness/c19"
+	"verif/harness/c20"
 	"verif/harness/c17"
 	"verif/harness/core"
 )
@@ -46,12 +47,14 @@ var runners = map[string]core.Runner{
 	"C14": c14.Runner,
 	"C15": c15.Runner,
 	"C19": c19.Runner,
+	"C20": c20.Runner,
 	"C08ndp": c08ndp.Runner,
 	"C17": c17.Runner,
 	"C08dns": c08dns.Runner,
 }
 
 func main() {
+	c08.Sub = []core.Runner{c08dns.Runner, c08ndp.Runner}
 	prop := flag.String("prop", "", "property id")
 	seed := flag.Int64("seed", 1, "PRNG seed")
 	tier := flag.String("tier", "quick", "quick|thorough")
